@@ -42,6 +42,7 @@ namespace pika::experimental {
         void wait()
         {
             PIKA_VERIF_POINT("event.wait", this, 0, 0);
+            PIKA_VERIF_POST("event.load", this, event_.load(std::memory_order_acquire) ? 1 : 0, 0);
             if (event_.load(std::memory_order_acquire)) return;
 
             std::unique_lock<mutex_type> l(mtx_);
@@ -68,6 +69,7 @@ namespace pika::experimental {
             PIKA_ASSERT(l.owns_lock());
 
             while (!event_.load(std::memory_order_acquire)) { cond_.wait(l, "event::wait_locked"); }
+            PIKA_VERIF_POST("event.pass", this, event_.load(std::memory_order_acquire) ? 1 : 0, 0);
         }
 
         void set_locked(std::unique_lock<mutex_type> l)
